@@ -155,6 +155,10 @@ theorem counters_and_offsets_wide :
     ("s_advance_to_closing_tag", "len", 64) ∈ intLocals ∧ ("aws_xml_node_traverse", "node_name_len", 64) ∈ intLocals ∧
     ("s_node_next_sibling", "node_name_len", 64) ∈ intLocals ∧ HALF + 1 < 2 ^ 64 := by decide
 
+/-- the callback stack is a growing list, so its length is the nesting depth for every `options.max_depth`, as
+`PState.depth` in the model (which has no capacity) -/
+theorem callback_stack_dynamic : callbackStackDynamic = true := by decide
+
 theorem limits_as_documented : maxDocumentDepth = DEFAULT_MAX_DEPTH ∧ maxNameLen = MAX_NAME_LEN := by decide
 
 end AwsVerif.Xml
